@@ -106,10 +106,17 @@ pub fn run(ctx: &Ctx, rep: &mut Report) {
     {
         let mut nums: Vec<usize> = (0..=4097).collect();
         nums.extend([65534, 65535, 65536, 65537, 1 << 20, usize::MAX - 1, usize::MAX]);
+        // values that alias to a small number when truncated to 8/16/20/24/32/48 bits
+        for k in 8..usize::BITS {
+            let p = 1usize << k;
+            nums.extend([p - 1, p, p + 1, p + 5, p.wrapping_add(4095), p.wrapping_add(65535)]);
+        }
+        nums.sort();
+        nums.dedup();
         let mut sizes: Vec<usize> = (0..=8200).collect();
         for k in 14..usize::BITS {
             let p = 1usize << k;
-            sizes.extend([p - 1, p, p + 1]);
+            sizes.extend([p - 1, p, p + 1, p + 16, p + 64, p + 1024]);
         }
         sizes.push(usize::MAX);
         // full product for num in {0, 1, 4095, 4096, 65535, 65536, usize::MAX}; for the others a size subset
@@ -121,7 +128,7 @@ pub fn run(ctx: &Ctx, rep: &mut Report) {
         ctx.family(
             rep,
             "construction",
-            "BlockValue::new(num, more, size): num in {0,1,4095,4096,4097,65535,65536,usize::MAX} x every size 0..=8200 and 2^k-1,2^k,2^k+1 up to usize::MAX; every num 0..=4097 and the large ones x 17 boundary sizes (thorough: x every size 0..=8200)",
+            "BlockValue::new(num, more, size): num in {0,1,4095,4096,4097,65535,65536,usize::MAX} x every size 0..=8200 and 2^k-1,2^k,2^k+1 up to usize::MAX; every num 0..=4097, 2^k + {-1,0,1,5,4095,65535} for k = 8..63 and the large ones x 17 boundary sizes; sizes also 2^k + {16,64,1024} (thorough: x every size 0..=8200)",
             n,
             true,
             |i, rep| {
